@@ -370,11 +370,12 @@ func (x *Exec) lazyFor(st *State, et types.Type) *Lazy {
 	}
 	cs := comps(et)
 	x.declZero(et)
-	l := &Lazy{key: key, et: et, base: make([]string, len(cs))}
+	l := &Lazy{key: key, et: et, base: make([]string, len(cs)), d: x.decls, sorts: make([]string, len(cs))}
 	for i, c := range cs {
 		b := fmt.Sprintf("%s@%d", sanitize(key+c.Suffix), st.epoch)
 		x.decls.Const(b, "(Array Int (Array Int "+c.Sort+"))")
 		l.base[i] = b
+		l.sorts[i] = c.Sort
 	}
 	x.elemBaseFacts(l.base, cs, st.epochAlloc)
 	st.lazy[key] = l
@@ -442,9 +443,10 @@ func (x *Exec) havocLazy(st *State, key string) {
 		return
 	}
 	cs := comps(l.et)
-	nl := &Lazy{key: key, et: l.et, base: make([]string, len(cs))}
+	nl := &Lazy{key: key, et: l.et, base: make([]string, len(cs)), d: x.decls, sorts: make([]string, len(cs))}
 	for i, c := range cs {
 		nl.base[i] = x.decls.Fresh(sanitize(key+c.Suffix)+"@h", "(Array Int (Array Int "+c.Sort+"))")
+		nl.sorts[i] = c.Sort
 	}
 	x.elemBaseFacts(nl.base, cs, st.alloc)
 	st.lazy[key] = nl
